@@ -346,7 +346,8 @@ def gen(rng, n, tier):
 
 # ---------------------------------------------------------------- implementation runner
 def setup_impl():
-    from typing import Optional, Sequence
+    from collections.abc import Sequence
+    from typing import Optional
     from mitmproxy import exceptions, optmanager
     _st["om"], _st["exc"] = optmanager, exceptions
     _st["ty"] = {"bool": bool, "int": int, "str": str, "optstr": Optional[str], "optint": Optional[int],
